@@ -33,6 +33,10 @@ type stateEv struct {
 	Step    int          `json:"step"`
 	Inc     string       `json:"inc"`     // digest of the incremental controller's normal form
 	Fresh   []string     `json:"fresh"`   // digests of fresh controllers (list/event permutations)
+	IncX    string       `json:"incx"`    // same without pruning unreachable auth-proxy leftovers (C05)
+	FreshX  []string     `json:"freshx"`  //
+	XDiff   []string     `json:"xdiff"`   // exact difference between inc and fresh[0]
+	Dups    []string     `json:"dups"`    // sections defined more than once in the files of the incremental controller
 	Diff    []string     `json:"diff"`    // entries differing between inc and fresh[0] (report only)
 	FDiff   []string     `json:"fdiff"`   // entries differing among fresh controllers
 	Err     bool         `json:"err"`     // the reconciliation of this step reported an error
@@ -44,6 +48,7 @@ type stateEv struct {
 	FFacts  *cfgnf.Facts `json:"ffacts,omitempty"`
 	Ops     []string     `json:"ops"`
 	Faulted bool         `json:"faulted"`
+	Failed  bool         `json:"failed"` // the first reconciliation of the step returned an error
 	Core    bool         `json:"core"` // the cluster is within the vocabulary of spec/Controller.tla
 	Cluster any          `json:"cluster,omitempty"`
 	Model   *model       `json:"model,omitempty"`  // routing tables read from the incremental controller's files
@@ -150,11 +155,17 @@ func options(h *hist.History) pipeline.Options {
 }
 
 func observe(w *world.World) (*cfgnf.NF, *cfgnf.Facts, error) {
+	nf, _, facts, err := observeX(w)
+	return nf, facts, err
+}
+
+// observeX returns the behavioural normal form (unreachable auth-proxy leftovers pruned), the exact one and the facts.
+func observeX(w *world.World) (*cfgnf.NF, *cfgnf.NF, *cfgnf.Facts, error) {
 	raw, err := cfgnf.Load(w.Opt.CfgDir(), w.Opt.Dir)
 	if err != nil {
-		return nil, nil, err
+		return nil, nil, nil, err
 	}
-	return raw.PruneAuth().Canon(), raw.Facts(), nil
+	return raw.PruneAuth().Canon(), raw.Canon(), raw.Facts(), nil
 }
 
 var keepDir string
@@ -194,18 +205,18 @@ func keepCopy(w *world.World, label string) {
 	}
 }
 
-func freshNF(base string, cli client.Client, h *hist.History, rnd *rand.Rand, withModel bool) (*cfgnf.NF, *cfgnf.Facts, *model, error) {
+func freshNF(base string, cli client.Client, h *hist.History, rnd *rand.Rand, withModel bool) (*cfgnf.NF, *cfgnf.NF, *cfgnf.Facts, *model, error) {
 	c := cli
 	if rnd != nil {
 		c = &pipeline.ShuffleClient{Client: cli, Rnd: rnd}
 	}
 	w, err := world.New(base, c, options(h))
 	if err != nil {
-		return nil, nil, nil, err
+		return nil, nil, nil, nil, err
 	}
 	defer w.Close()
 	if err := w.P.Start(rnd); err != nil {
-		return nil, nil, nil, fmt.Errorf("fresh controller: %w", err)
+		return nil, nil, nil, nil, fmt.Errorf("fresh controller: %w", err)
 	}
 	if rnd == nil {
 		keepCopy(w, h.ID+"-fresh")
@@ -213,11 +224,11 @@ func freshNF(base string, cli client.Client, h *hist.History, rnd *rand.Rand, wi
 	var m *model
 	if withModel {
 		if m, err = extractModel(w); err != nil {
-			return nil, nil, nil, err
+			return nil, nil, nil, nil, err
 		}
 	}
-	nf, facts, err := observe(w)
-	return nf, facts, m, err
+	nf, nfx, facts, err := observeX(w)
+	return nf, nfx, facts, m, err
 }
 
 type plan struct {
@@ -253,10 +264,14 @@ func injectFileFault(w *world.World, glob string) (func(), bool) {
 		sv = append(sv, saved{t, b, err == nil})
 		os.Remove(t)
 		os.Mkdir(t, 0o755)
+		if err == nil {
+			// readers (the simulated HAProxy, the observer) keep seeing the content the failed write could not replace
+			os.WriteFile(filepath.Join(t, ".orig"), b, 0o644)
+		}
 	}
 	return func() {
 		for _, s := range sv {
-			os.Remove(s.path)
+			os.RemoveAll(s.path)
 			if s.had {
 				os.WriteFile(s.path, s.data, 0o644)
 			}
@@ -332,7 +347,9 @@ func runHistory(base string, h *hist.History, certs *hist.Certs, nfresh int, fac
 		for _, f := range st.Faults {
 			switch {
 			case strings.HasPrefix(f.Point, "file:"):
-				u, ok := injectFileFault(w, f.Point[5:])
+				var u func()
+				var ok bool
+				w.Sim.Freeze(func() { u, ok = injectFileFault(w, f.Point[5:]) })
 				undo = append(undo, u)
 				faulted = faulted || ok
 			case strings.HasPrefix(f.Point, "cmd:"):
@@ -353,32 +370,45 @@ func runHistory(base string, h *hist.History, certs *hist.Certs, nfresh int, fac
 		if len(p.Pending) == 0 && len(st.Faults) == 0 && len(ops) > 0 {
 			// every event of the batch was filtered by the predicates: nothing to reconcile
 		}
-		_, rerr := p.ReconcilePending(st.FullFirst)
-		for _, u := range undo {
-			u()
-		}
+		_, failedKinds, rerr := p.ReconcilePendingKinds(st.FullFirst)
+		firstErr := rerr
+		w.Sim.Freeze(func() {
+			for _, u := range undo {
+				u()
+			}
+		})
 		retried := 0
 		if rerr != nil {
-			// the controller schedules its own retry: Reconcile again with the same kind of item and
-			// whatever arrived meanwhile (here: nothing), without faults
+			// the controller schedules its own retry (RequeueAfter): Reconcile again with the same kind of item
+			// and whatever arrived meanwhile (here: nothing), this time without faults
 			w.Sim.SetPlan(map[int]string{}, 0, 0)
 			for retried < 3 && rerr != nil {
 				retried++
-				_, rerr = p.Reconcile(false)
+				rerr = nil
+				for _, k := range failedKinds {
+					if _, e := p.Reconcile(k); e != nil {
+						rerr = e
+					}
+				}
 			}
+		}
+		if faulted && h.Opt.ReloadInterval > 0 {
+			// failed reloads are retried by the reload queue after --reload-retry
+			time.Sleep(400 * time.Millisecond)
 		}
 		if h.Opt.ReloadInterval > 0 {
 			// let the reload queue run
 			time.Sleep(time.Duration(h.Opt.ReloadInterval)*time.Millisecond + 30*time.Millisecond)
 		}
 		r1, _, cmds := w.Sim.Snapshot()
-		inc, incFacts, err := observe(w)
+		inc, incx, incFacts, err := observeX(w)
 		if err != nil {
 			return nil, err
 		}
 		keepCopy(w, h.ID+"-inc")
 		ev := stateEv{Tr: h.ID, Ev: "State", Step: si, Inc: nfDigest(inc), Err: rerr != nil, Retried: retried,
-			Reloads: r1 - r0, Ncmd: len(cmds), Ops: labels, Faulted: faulted, Diff: []string{}, FDiff: []string{}, Fresh: []string{}}
+			Reloads: r1 - r0, Ncmd: len(cmds), Ops: labels, Faulted: faulted, Failed: firstErr != nil, Diff: []string{}, FDiff: []string{}, Fresh: []string{},
+			IncX: nfDigest(incx), FreshX: []string{}, XDiff: []string{}, Dups: append([]string{}, incx.Dups...)}
 		run := w.Sim.RunningCopy()
 		disk, err := hasim.LoadRuntime(w.Opt.CfgDir())
 		if err != nil {
@@ -409,9 +439,13 @@ func runHistory(base string, h *hist.History, certs *hist.Certs, nfresh int, fac
 			if k > 0 {
 				rnd = rand.New(rand.NewSource(seed*1000 + int64(si)*10 + int64(k)))
 			}
-			fnf, ffacts, fm, err := freshNF(base, cli, h, rnd, k == 0 && len(st.Cluster) > 0)
+			fnf, fnfx, ffacts, fm, err := freshNF(base, cli, h, rnd, k == 0 && len(st.Cluster) > 0)
 			if err != nil {
 				return nil, err
+			}
+			ev.FreshX = append(ev.FreshX, nfDigest(fnfx))
+			if k == 0 {
+				ev.XDiff = append(ev.XDiff, cfgnf.Diff(incx, fnfx)...)
 			}
 			if k == 0 {
 				ev.FModel = fm
